@@ -176,6 +176,30 @@ theorem mul_const_some [Mul K] (f q : Fld K) (hf : f.size1 = false) (hq : q.size
   rw [mulArr_extent f.extent f.extent hint, intersectionExtent_eq]
   cases hfe : f.extent; simp
 
+/-- an array field times a one-element field of value 1 is the array field itself (literally: same shape, offset, samples) -/
+theorem mul_one_field [MulOneClass K] (f q : Fld K) (hf : f.size1 = false) (hq : q.size1 = true)
+    (hpos : 0 < f.arr.s0 ∧ 0 < f.arr.s1) (h1 : ∀ x : K, x * q.arr.get 0 0 = x) : f.mul q = some f := by
+  have hv := f.extent_valid hpos
+  have hint : intersect f.extent f.extent = true := by rw [intersect_iff']; omega
+  have hbe : (q.broadcastTo f).extent = f.extent := rfl
+  have hm : f.mul q = f.mulArr (q.broadcastTo f) := by
+    unfold Fld.mul
+    simp only [hf, hq, Bool.false_and, Bool.false_eq_true, if_false, if_true]
+  rw [hm]
+  unfold Fld.mulArr
+  simp only [hbe, hint, if_true, Option.some.injEq]
+  obtain ⟨hs, hsh⟩ := self_slices f.extent
+  rw [hs, hsh]
+  obtain ⟨⟨s0, s1, get⟩, o0, o1⟩ := f
+  have he : (Fld.mk ⟨s0, s1, get⟩ o0 o1).extent = ⟨-(s0 / 2) + o0, -(s0 / 2) + o0 + s0 - 1, -(s1 / 2) + o1, -(s1 / 2) + o1 + s1 - 1⟩ :=
+    arrayExtent_eq _ _ _ _
+  rw [he]
+  simp only [Fld.broadcastTo, Fld.mk.injEq, Arr.mk.injEq]
+  refine ⟨⟨by omega, by omega, ?_⟩, by omega, by omega⟩
+  funext i j
+  simp only [Int.add_zero]
+  exact h1 _
+
 theorem extent_shape_eq (p f : Fld K) (h : p.extent = f.extent) : p.arr.s0 = f.arr.s0 ∧ p.arr.s1 = f.arr.s1 := by
   unfold Fld.extent at h
   rw [arrayExtent_eq, arrayExtent_eq, Extent.mk.injEq] at h
